@@ -253,7 +253,25 @@ func Transform(jsonData []byte) (result []byte, e error) {
 		}
 	}
 
+	// The parser is recursive: without a bound on the nesting a text of a few million opening
+	// brackets exhausts the stack, which ends the process (encoding/json draws the same line).
+	const maxNesting = 10000
+	var nesting int = 0
+
+	enter := func() bool {
+		nesting++
+		if nesting > maxNesting {
+			setError("Exceeded the maximum nesting depth")
+			return false
+		}
+		return true
+	}
+
 	parseArray = func() string {
+		defer func() { nesting-- }()
+		if !enter() {
+			return ""
+		}
 		var arrayData strings.Builder
 		arrayData.WriteByte('[')
 		var next bool = false
@@ -302,6 +320,10 @@ func Transform(jsonData []byte) (result []byte, e error) {
 	}
 
 	parseObject = func() string {
+		defer func() { nesting-- }()
+		if !enter() {
+			return ""
+		}
 		nameValueList := list.New()
 		var next bool = false
 	CoreLoop:
